@@ -34,6 +34,7 @@ char simfs_last_cmd[512];
 static int open_dirs;
 static int mkstemp_base_mode = 0600;
 void simfs_set_mkstemp_mode(int m) { mkstemp_base_mode = m; }
+static int fdopen_fail_at, fchmod_fail_at, fdopen_calls, fchmod_calls;
 int simenv_exit_called;
 
 static void norm(const char *in, char *out)
@@ -90,6 +91,7 @@ void simfs_reset(uint64_t seed)
     simenv_exit_called = 0;
     mkstemp_base_mode = 0600;
     last_temp[0] = 0;
+    fdopen_fail_at = fchmod_fail_at = fdopen_calls = fchmod_calls = 0;
     simfs_add_dir("/");
     simfs_add_dir("/tmp");
 }
@@ -161,6 +163,9 @@ static int fs_close(int fd)
 int simfs_close(int fd) { return fs_close(fd); }
 int simfs_is_fd(int fd) { return fd >= FS_FD_BASE && fd < FS_FD_MAX; }
 
+/* two calls that succeed in ordinary life and may legally fail: the k-th fdopen() of a run with EMFILE (no stream to be had), the
+   k-th fchmod() with EPERM (a file system that does not do modes); 0 = never.  Set per run from the plan's knobs. */
+void simfs_set_call_failures(int fdopen_k, int fchmod_k) { fdopen_fail_at = fdopen_k; fchmod_fail_at = fchmod_k; fdopen_calls = fchmod_calls = 0; }
 typedef struct { FILE *inner; int fd; } fdo_t;
 static ssize_t fdo_read(void *c, char *b, size_t n) { fdo_t *f = c; size_t r = fread(b, 1, n, f->inner); return (ssize_t)r; }
 static int fdo_seek(void *c, off64_t *o, int w) { fdo_t *f = c; if (fseeko(f->inner, *o, w)) return -1; *o = ftello(f->inner); return 0; }
@@ -176,6 +181,7 @@ FILE *sim_fdopen(int fd, const char *mode)
         return fdopen(fd, mode);
     }
     if (!fsfd[fd - FS_FD_BASE].used) { errno = EBADF; return NULL; }
+    if (fdopen_fail_at && ++fdopen_calls == fdopen_fail_at) { fault_fired(FC_OPEN, FO_EMFILE); probe_hit("fdopen_failed"); tr_printf("fdopen fd%d -> EMFILE", fd); errno = EMFILE; return NULL; }
     n = &nodes[fsfd[fd - FS_FD_BASE].node];
     f = calloc(1, sizeof(*f));
     f->inner = simfd_cookie_stream(n->data, n->len, 1, 0);
@@ -319,6 +325,7 @@ int sim_fchmod(int fd, mode_t m)
     sim_step();
     if (!simfs_is_fd(fd)) { if (fd >= SIMFD_BASE) { errno = EBADF; return -1; } return fchmod(fd, m); }
     if (!fsfd[fd - FS_FD_BASE].used) { errno = EBADF; return -1; }
+    if (fchmod_fail_at && ++fchmod_calls == fchmod_fail_at) { probe_hit("fchmod_failed"); tr_printf("fchmod fd%d -> EPERM", fd); errno = EPERM; return -1; }
     nodes[fsfd[fd - FS_FD_BASE].node].mode = (int)(m & 0777);
     tr_printf("fchmod fd%d %o", fd, (unsigned)m);
     return 0;
